@@ -174,14 +174,14 @@ func mutateLeaf(t *rapid.T, raw *header.RawHeader, neighbour *header.RawHeader, 
 // ---- the mutation context ----------------------------------------------------------------
 
 type c16Mut struct {
-	t      *rapid.T
-	env    *c16Env
-	h      *header.ExtendedHeader // being mutated (deep copy)
-	orig   *header.ExtendedHeader // honest original (read-only)
-	nb     *header.ExtendedHeader // honest neighbour (read-only)
-	labels []string               // mutation labels in application order
-	onlyBenign bool               // every mutation so far is a proper signature drop / honest nil vote
-	fixups []string
+	t          *rapid.T
+	env        *c16Env
+	h          *header.ExtendedHeader // being mutated (deep copy)
+	orig       *header.ExtendedHeader // honest original (read-only)
+	nb         *header.ExtendedHeader // honest neighbour (read-only)
+	labels     []string               // mutation labels in application order
+	onlyBenign bool                   // every mutation so far is a proper signature drop / honest nil vote
+	fixups     []string
 }
 
 func (m *c16Mut) add(label string, benign bool) {
@@ -218,8 +218,6 @@ func (m *c16Mut) outsiderKey(label string) int {
 	}
 	return rapid.SampledFrom(out).Draw(m.t, label+".outsider")
 }
-
-var c16Families = []string{"raw", "dah", "commit", "sig", "vals", "part"}
 
 // applyOne draws and applies one mutation.
 func (m *c16Mut) applyOne(n int) {
